@@ -1,0 +1,27 @@
+//go:build verif
+// +build verif
+
+// Contracts for the deductive verifier in /verif (govc). Comment-only: no executable code.
+package filters
+
+//@ const quiet = authzrefused == old(authzrefused) && nextcalls == old(nextcalls)
+
+//@ func WithNoLoggingImpersonation$1 props C02
+//@   requires [req] req != nil
+//@   modifies *
+//@   ensures [refused_not_forwarded] authzrefused > old(authzrefused) ==> nextcalls == old(nextcalls)
+//@   ensures [at_most_once] nextcalls <= old(nextcalls) + 1 && nextcalls >= old(nextcalls)
+//@   loop 0: invariant [quiet] quiet
+//@   loop 1: invariant [quiet] quiet
+//@   loop 2: invariant [quiet] quiet
+//@   loop 3: invariant [quiet] quiet
+
+//@ func deleteImpersonationHeaders props C02
+//@   modifies headers[*]
+//@   ensures [family_gone] forall k string :: {k in headers} (k in headers) ==> !hasPrefix(k, "Impersonate-")
+//@   ensures [others_kept] forall k string :: {k in headers} !hasPrefix(k, "Impersonate-") ==> ((k in headers) == old(k in headers)) && headers[k] === old(headers[k])
+//@   loop 0: invariant [bounds] 0 <= idx && idx <= len(rangekeys)
+//@   loop 0: invariant [done] forall j int :: {rangekeys[j]} 0 <= j && j < idx ==> !((rangekeys[j] in headers) && hasPrefix(rangekeys[j], "Impersonate-"))
+//@   loop 0: invariant [only_removes] forall k string :: {k in headers} (k in headers) ==> old(k in headers)
+//@   loop 0: invariant [other_maps] forall m2 map[string][]string :: {mapdom(m2)} {mapval(m2)} m2 != headers ==> mapdom(m2) == old(mapdom(m2)) && mapval(m2) == old(mapval(m2))
+//@   loop 0: invariant [others_kept] forall k string :: {k in headers} !hasPrefix(k, "Impersonate-") ==> ((k in headers) == old(k in headers)) && headers[k] === old(headers[k])
